@@ -12,3 +12,7 @@ import WowVerif.Props.C01
 #print axioms Wv.C01.archive_absent
 #print axioms Wv.C01.bet_roundtrip
 #print axioms Wv.C01.bet_columns_independent
+#print axioms Wv.C01.het_finds
+#print axioms Wv.C01.het_resolves_own
+#print axioms Wv.C01.het_absent
+#print axioms Wv.C01.het_name_byte_never_free
